@@ -13,14 +13,14 @@ RULE = ("every estimator x GEMINI names x degenerate family: feature scale 1e-3 
         "rate, many epochs), low Douglas temperature; thorough tier combines two families; fit (+ path for sparse models), "
         "then predict_proba, score on training and fresh data. Monitors: optimiser-step hook (all parameters finite after "
         "every step, first offending step and array recorded), post-call finiteness of weights, probabilities, scores, "
-        "path histories. One evaluation = one fit/path. Non-trivial = ran to the end and every monitor evaluated; distinct "
+        "path histories; plus direct calls of the 13 objectives on one-hot predictions given as float64 / float32 / int64 / bool matrices (finite, and equal to the float64 score). One evaluation = one fit/path. Non-trivial = ran to the end and every monitor evaluated; distinct "
         "by (estimator, family, parameters).")
 ASSUMPTIONS = ["only the families the property lists are generated; kernels undefined for the data (chi2 on negative values) "
                "are not used"]
 EVAL_COUNTER = "runs"
 FAMILIES = ["scale1e-3", "scale30", "scale100", "scale1000", "constcol", "dupcol", "duprows", "k_eq_n", "k_eq_1", "batch1",
             "saturation", "lowtemp"]
-REQUIRED = {"quick": dict({"runs": 700, "runs_complete": 650, "steps_checked": 5000, "paths": 40},
+REQUIRED = {"quick": dict({"runs": 700, "runs_complete": 650, "steps_checked": 5000, "paths": 40, "onehot_calls": 1200},
                           **{"family:" + f: 25 for f in FAMILIES}),
             "thorough": dict({"runs": 15000}, **{"family:" + f: 500 for f in FAMILIES})}
 SHARD_TIMEOUT = {"quick": 1200, "thorough": 7000}
@@ -28,7 +28,9 @@ SHARD_TIMEOUT = {"quick": 1200, "thorough": 7000}
 
 def cases(tier, seed):
     n = 900 if tier == "quick" else 18000
-    return [{"kind": "run", "seed": seed, "i": i, "tier": tier} for i in range(n)]
+    m = 48 if tier == "quick" else 600
+    return [{"kind": "run", "seed": seed, "i": i, "tier": tier} for i in range(n)] + \
+           [{"kind": "onehot", "seed": seed, "i": i, "tier": tier} for i in range(m)]
 
 
 class State(_train.Listener):
@@ -110,7 +112,59 @@ def apply_family(rng, fam, X, params, name):
     return np.ascontiguousarray(X), params
 
 
+def run_onehot(case, ctx):
+    """Saturated predictions handed straight to the 13 objectives: one-hot rows as float, integer and boolean matrices
+    (hard labels are naturally integer / boolean), with empty clusters, a single occupied cluster, duplicated rows.
+    Score and gradient are finite, and the integer / boolean matrices give the float matrix' score."""
+    from gemclus.gemini._utils import _str_to_gemini
+    from sklearn.metrics import pairwise_kernels, pairwise_distances
+    i = case["i"]
+    rng = gen.rng_for(case["seed"], ID, "onehot", i)
+    n, K, d = int(rng.integers(1, 16)), int(rng.integers(1, 7)), int(rng.integers(1, 4))
+    X = gen.make_data(rng, n, d, "blobs")
+    lab = rng.integers(0, K, size=n)
+    shape = int(rng.integers(0, 4))
+    if shape == 1:
+        lab[:] = lab[0]                       # one occupied cluster
+    elif shape == 2 and K >= 2:
+        lab = lab % (K - 1)                   # the last cluster is empty
+    P = np.zeros((n, K))
+    P[np.arange(n), lab] = 1.0
+    ctx.case = dict(case, n=n, K=K, shape=shape)
+    for name in gen.GEMINI_NAMES:
+        gem = _str_to_gemini(name)
+        A = pairwise_kernels(X, metric="linear") if name.startswith("mmd") else (pairwise_distances(X) if name.startswith("wasserstein") else None)
+        if name == "tv_ovo" and K == 1:
+            continue
+        vals = {}
+        for dt in (float, np.int64, bool, np.float32):
+            ctx.count("onehot_calls")
+            try:
+                v, g = gem(P.astype(dt), A, return_grad=True)
+            except Exception as e:
+                ctx.violation("finite", f"onehot-call-raises/{name}/{np.dtype(dt).name}/{type(e).__name__}", observed=repr(e)[:200], expected="finite score")
+                break
+            v = float(np.asarray(v).reshape(-1)[0])
+            vals[np.dtype(dt).name] = v
+            if not np.isfinite(v) or not np.all(np.isfinite(np.asarray(g, dtype=float))):
+                ctx.violation("finite", f"nonfinite-on-onehot-predictions/{name}/{np.dtype(dt).name}",
+                              observed={"score": v, "grad_finite": bool(np.all(np.isfinite(np.asarray(g, dtype=float)))), "P": P.astype(int)}, expected="finite")
+                break
+        else:
+            ref_v = vals["float64"]
+            for k, v in vals.items():
+                tol = (1e-5 if k == "float32" else 1e-9) * max(1.0, abs(ref_v))
+                if abs(v - ref_v) > tol:
+                    ctx.violation("finite", f"onehot-score-silently-degenerate/{name}/{k}", observed={"score": v, "P": P.astype(int)},
+                                  expected={"score_for_float64_matrix": ref_v})
+                    break
+    ctx.count("onehot_cases")
+    ctx.distinct("onehot", n, K, tuple(int(x) for x in lab))
+
+
 def run_case(case, ctx, st):
+    if case.get("kind") == "onehot":
+        return run_onehot(case, ctx)
     i = case["i"]
     rng = gen.rng_for(case["seed"], ID, "run", i)
     names = list(gen.ESTIMATORS)
